@@ -112,6 +112,37 @@ def upperCore : Nat → Nat → Option Nat
   | 0, 0 => some 0
   | _, _ => Option.none
 
+/-! ### X-point slots
+`EquilibriumRegion.xPointsAtStart / xPointsAtEnd` (hypnotoad/cases/tokamak.py `describeSingleNull`, `describeDoubleNull`): one entry per radial
+boundary `0 … nseg`; entry `k` holds the X-point whose corner closes the region at that end between segments `k-1` and `k`.
+`(k, w)`: boundary `k`, X-point number `w` in `equilibrium.x_points` (0 = primary, 1 = secondary). -/
+abbrev XSlot := Option (Nat × Nat)
+
+/-- single null: (at start, at end) per region -/
+def xslotSN : Nat → XSlot × XSlot
+  | 0 => (none, some (1, 0)) | 1 => (some (1, 0), some (1, 0)) | 2 => (some (1, 0), none)
+  | _ => (none, none)
+
+/-- connected double null (x_points[0] lower, x_points[1] upper) -/
+def xslotCDN : Nat → XSlot × XSlot
+  | 0 => (none, some (1, 0)) | 1 => (some (1, 0), some (1, 1)) | 2 => (some (1, 1), none)
+  | 3 => (none, some (1, 1)) | 4 => (some (1, 1), some (1, 0)) | 5 => (some (1, 0), none)
+  | _ => (none, none)
+
+/-- lower disconnected double null: the lower X-point is the primary one -/
+def xslotLDN : Nat → XSlot × XSlot
+  | 0 => (none, some (1, 0)) | 1 => (some (1, 0), some (2, 1)) | 2 => (some (2, 1), none)
+  | 3 => (none, some (2, 1)) | 4 => (some (2, 1), some (1, 0)) | 5 => (some (1, 0), none)
+  | _ => (none, none)
+
+/-- upper disconnected double null: the upper X-point is the primary one -/
+def xslotUDN : Nat → XSlot × XSlot
+  | 0 => (none, some (2, 1)) | 1 => (some (2, 1), some (1, 0)) | 2 => (some (1, 0), none)
+  | 3 => (none, some (1, 0)) | 4 => (some (1, 0), some (2, 1)) | 5 => (some (2, 1), none)
+  | _ => (none, none)
+
+def xslotCore : Nat → XSlot × XSlot := fun _ => (none, none)
+
 /-- radial segment of x -/
 def segOf (xs : List Nat) (x : Nat) : Nat :=
   match xs with
